@@ -123,14 +123,22 @@ impl<T: CancelIo> CancelImpl<T> {
     // async cancel for a coroutine
     #[cold]
     pub unsafe fn cancel(&self) {
+        #[cfg(may_verif)]
+        crate::verif::pt("cancel.set_bit", crate::verif::addr(self), 0, 0);
         self.state.fetch_or(1, Ordering::Release);
+        #[cfg(may_verif)]
+        crate::verif::pt("cancel.io", crate::verif::addr(self), 0, 0);
 
         if let Some(Ok(())) = self.io.cancel() {
             // successfully canceled
             return;
         }
 
+        #[cfg(may_verif)]
+        crate::verif::pt("cancel.take_slot", crate::verif::addr(self), 0, 0);
         if let Some(co) = self.co.take() {
+            #[cfg(may_verif)]
+            crate::verif::pt("cancel.take_co", crate::verif::addr(self), 0, 0);
             if let Some(mut co) = co.take() {
                 // this is not safe, the kernel may still need to use the overlapped
                 // set the cancel result for the coroutine
